@@ -265,7 +265,9 @@ def SlashCodeOk : Prop :=
   oracleSetSlashArg = .oracleAddress ∧ batchSlashArg = .oracleAddress ∧ bridgeCallSlashArg = .oracleAddress ∧
   oracleSetStartSkip = .gt ∧ batchStartSkip = .gt ∧ bridgeCallStartSkip = .gt ∧
   slashWhenConfirmMissing = true ∧ oracleSetWindowCmp = .gt ∧ bridgeCallWindowCmp = .le ∧
-  batchRangeHalfOpen = true ∧ slashingGuardCmp = .le
+  batchRangeHalfOpen = true ∧ slashingGuardCmp = .le ∧
+  -- the model matches confirms with oracles by EXTERNAL address (`confExts`, `shouldSlash`): that is what the code must do
+  slashConfirmFill = .external ∧ slashConfirmLookup = .external
 
 instance : Decidable SlashCodeOk := by unfold SlashCodeOk; infer_instance
 
